@@ -138,4 +138,110 @@ theorem commentLen_pos (src : Bytes) : ∀ (fuel p nested n : Nat),
           · exact ih _ _ _ h
         · exact ih _ _ _ h
 
+
+theorem wf_plain (cut : Bool) (o : Bytes) (nl h i : Nat) (hh : 0 < h) (hlt : h < i) :
+    NT.wf ⟨false, cut, o, nl, h, i⟩ = true := by
+  simp [NT.wf]; omega
+
+theorem wf_comment (n nl : Nat) (hn : 0 < n) : NT.wf ⟨true, true, [], nl, n, n⟩ = true := by
+  simp [NT.wf]; omega
+
+theorem stepBackslash_gout {st st' : LSt} {c : UInt8} {rest r : Bytes}
+    (h : stepBackslash st c rest = .next st' r) (g : Gout st.out) : Gout st'.out := by
+  unfold stepBackslash at h
+  repeat' split at h
+  all_goals first | (cases h; done) | (cases h; exact g)
+
+theorem stepShow_gout {f : Format} {st st' : LSt} {inner r : Bytes}
+    (h : stepShow f st inner = .next st' r) (g : Gout st.out) : Gout st'.out := by
+  unfold stepShow at h
+  repeat' split at h
+  all_goals first
+    | (cases h; done)
+    | (cases h; exact gout_emit _ g (wf_plain _ _ _ _ _ (by omega) (by omega)))
+
+theorem stepStmts_gout {st st' : LSt} {inner r : Bytes}
+    (h : stepStmts st inner = .next st' r) (g : Gout st.out) : Gout st'.out := by
+  unfold stepStmts at h
+  repeat' split at h
+  all_goals first
+    | (cases h; done)
+    | (cases h; exact gout_emit _ g (wf_plain _ _ _ _ _ (by omega) (by omega)))
+
+theorem stepRaw_gout {st st' : LSt} {marker after r : Bytes}
+    (h : stepRaw st marker after = .next st' r) (g : Gout st.out) : Gout st'.out := by
+  unfold stepRaw at h
+  repeat' split at h
+  all_goals first | (cases h; done) | (cases h; exact g)
+
+theorem stepStmt_gout {st st' : LSt} {inner r : Bytes}
+    (h : stepStmt st inner = .next st' r) (g : Gout st.out) : Gout st'.out := by
+  unfold stepStmt at h
+  repeat' split at h
+  all_goals first
+    | (cases h; done)
+    | (cases h; exact gout_emit _ g (wf_plain _ _ _ _ _ (by omega) (by omega)))
+    | exact stepRaw_gout h (gout_emit _ g (wf_plain _ _ _ _ _ (by omega) (by omega)))
+
+theorem stepComment_gout {st st' : LSt} {src r : Bytes}
+    (h : stepComment st src = .next st' r) (g : Gout st.out) : Gout st'.out := by
+  unfold stepComment at h
+  split at h
+  · cases h
+  · rename_i n hn
+    cases h
+    exact gout_emit _ g (wf_comment _ _ (commentLen_pos _ _ _ _ _ hn))
+
+theorem stepNewline_gout {st st' : LSt} {rest r : Bytes}
+    (h : stepNewline st rest = .next st' r) (g : Gout st.out) : Gout st'.out := by
+  unfold stepNewline enterCodeBlock at h
+  repeat' split at h
+  all_goals first | (cases h; done) | (cases h; exact g)
+
+theorem scanStep_gout {f : Format} {st st' : LSt} {c : UInt8} {rest r : Bytes}
+    (h : scanStep f st c rest = .next st' r) (g : Gout st.out) : Gout st'.out := by
+  unfold scanStep at h
+  generalize hst0 : (if (st.ctx == MdCtx.md) = true then
+      ({ st with spacesOnly := st.spacesOnly && isSpace c } : LSt) else st) = st0 at h
+  have g0 : Gout st0.out := by
+    rw [← hst0]; split <;> exact g
+  clear hst0 g
+  simp only [] at h
+  repeat' split at h
+  all_goals first
+    | (cases h; done)
+    | exact stepBackslash_gout h g0
+    | exact stepShow_gout h g0
+    | exact stepStmts_gout h g0
+    | exact stepStmt_gout h g0
+    | exact stepComment_gout h g0
+    | (refine stepNewline_gout h ?_; first | exact g0 | (split <;> exact g0))
+    | (cases h; first | exact g0 | (split <;> exact g0))
+
+theorem scan_wf (f : Format) : ∀ (fuel : Nat) (st : LSt) (src : Bytes) (raws : List Raw),
+    Gout st.out → scan f fuel st src = .ok raws → WF raws = true := by
+  intro fuel
+  induction fuel with
+  | zero => intro st src raws _ h; simp [scan] at h
+  | succ k ih =>
+    intro st src raws g h
+    cases src with
+    | nil =>
+      simp only [scan, Except.ok.injEq] at h
+      rw [← h]; exact gout_final g
+    | cons c rest =>
+      simp only [scan] at h
+      split at h
+      · cases h
+      · rename_i st' rest' hs
+        exact ih _ _ _ (scanStep_gout hs g) h
+
+theorem scanAll_wf {f : Format} {body : Bytes} {raws : List Raw} (h : scanAll f body = .ok raws) :
+    WF raws = true := by
+  unfold scanAll at h
+  have g0 : Gout ([] : List Raw) := ⟨rfl, rfl, rfl⟩
+  split at h
+  · exact scan_wf f _ _ _ _ g0 h
+  · exact scan_wf f _ _ _ _ g0 h
+
 end ScriggoV.Cut
